@@ -35,7 +35,7 @@ def SameTreeAt (lexFile lexLine : Bytes → TokStream) (fuel : Nat) (src : Bytes
 /-- part 2 at one source and cut: the cut lies inside an open construct (`Front.cutKind`, the
 decidable predicate the driver evaluates) ⇒ line mode on the prefix asks for more input, no error -/
 def PrefixAt (lexFile lexLine : Bytes → TokStream) (fuel : Nat) (src : Bytes) (k : Nat) : Prop :=
-  valid (lexFile src) fuel = true → (cutKind (lexFile src).toks k).isSome = true →
+  valid (lexFile src) fuel = true → (cutKind src (lexFile src).toks k).isSome = true →
     ∃ r, result (lexLine (src.take k)) fuel = some r ∧ r.cont = true ∧ r.errors = 0
 
 def Statement (lexFile lexLine : Bytes → TokStream) : Prop :=
@@ -139,14 +139,14 @@ def openBlock.line : TokStream :=
 /-- `x "abc"` is valid; on its prefix `x "abc` (cut just before the closing quote) line mode returns
 the one-statement program `x`: no continuation — the unclosed string is silently dropped -/
 theorem witness_unclosed_string_after_statement :
-    valid unclosedString.whole 40 = true ∧ cutKind unclosedString.whole.toks 6 = some "in-string"
+    valid unclosedString.whole 40 = true ∧ cutKind [120, 32, 34, 97, 98, 99, 34] unclosedString.whole.toks 6 = some "in-string"
     ∧ (result unclosedString.line 40).map (fun r => (r.errors, r.cont, r.program.length)) = some (0, false, 1) := by
   decide
 
 /-- (was a refutation witness; repaired by the parser fix "line mode asks for more input after () at the end of a
 line") `[() => 1]` is valid; on its prefix `[()` line mode now asks for more input and reports no error -/
 theorem fixed_empty_lambda_parameter_list :
-    valid emptyParens.whole 40 = true ∧ (cutKind emptyParens.whole.toks 3).isSome = true
+    valid emptyParens.whole 40 = true ∧ (cutKind [91, 40, 41, 32, 61, 62, 32, 49, 93] emptyParens.whole.toks 3).isSome = true
     ∧ (result emptyParens.line 40).map (fun r => (r.errors, r.cont)) = some (0, true) := by
   decide
 
@@ -154,7 +154,7 @@ theorem fixed_empty_lambda_parameter_list :
 closed one") `/*/ x */` is valid; on its prefix `/*/`, an unclosed block comment whose text ends in `*/`, line mode
 now asks for more input and reports no error -/
 theorem fixed_unclosed_comment_ending_in_star_slash :
-    valid fakeComment.whole 40 = true ∧ cutKind fakeComment.whole.toks 3 = some "in-comment"
+    valid fakeComment.whole 40 = true ∧ cutKind [47, 42, 47, 32, 120, 32, 42, 47] fakeComment.whole.toks 3 = some "in-comment"
     ∧ (result fakeComment.line 40).map (fun r => (r.errors, r.cont)) = some (0, true) := by
   decide
 
